@@ -1042,6 +1042,25 @@ class ManifestRecursiveLoader:
                         if not ret and diff[0][0] == '__type__':
                             raise ManifestIncompatibleEntry(
                                 out[fullpath][1], e, diff)
+                        if (e.tag == 'MANIFEST'
+                                and out[fullpath][1].tag != 'MANIFEST'):
+                            # a Manifest that is additionally listed
+                            # as a regular file: the MANIFEST entry is
+                            # what keeps it in use, so preserve that
+                            # one and drop the other entry instead
+                            other_mpath, other = out[fullpath]
+                            old_checksums = dict(e.checksums)
+                            e.checksums.update(other.checksums)
+                            if e.checksums != old_checksums:
+                                self.updated_manifests.add(mpath)
+                            out[fullpath] = (mpath, e)
+                            if other_mpath == mpath:
+                                entries_to_remove.append(other)
+                            else:
+                                self.loaded_manifests[
+                                    other_mpath].entries.remove(other)
+                                self.updated_manifests.add(other_mpath)
+                            continue
                         # otherwise, make sure we have all checksums
                         old_checksums = dict(out[fullpath][1].checksums)
                         out[fullpath][1].checksums.update(e.checksums)
